@@ -14,6 +14,11 @@ CLAIMED = {
         note="Bounded: MC W<=3,N<=3 quick / W<=4,N<=4 thorough; replayed graphs up to (2,3) quick / (3,3) thorough; random runs W<=4, N<=40. Trusted: SeqCst atomics and std mpsc linearizable, hooks only at schedule points (a race inside one segment is only reachable by the free-running runs), 1.5 s no-progress time-out (re-run once).",
         technique="TLA+ spec of the ticket/turn/channel protocol model-checked with TLC; state-graph edge cover replayed as controlled thread schedules; recorded executions validated by TLC trace specs",
         ref="6 C05"),
+    "C09": dict(
+        text="TLC explores Pipe.tla with the consumer's Drop enabled at every point (invariants: look-ahead <= channel capacity + workers independent of the upstream length, at most one further pull per worker after the drop; liveness: every worker exits after a drop) and with a panicking item (with the process-exiting hook the run ends; without it TLC finds the wedged consumer - negative control), and Buffered.tla for capacities 0..2 (negative control: a producer that ignores the failed send violates the bound). Binding: edge covers of both state graphs are replayed on the real Pipe (hooks) and the real Buffered (its upstream iterator is the schedule point); random controlled schedules with drops, free-running abandon runs incl. an effectively unbounded upstream, and child processes with a panicking item are recorded and judged by the TLC monitor Trace_PipeObs; Pipe runs are also validated against the mechanism (Trace_Pipe).",
+        note="Bounded: graphs W<=2,N<=2 (quick) / W<=3,N<=3 (thorough), Buffered N<=3/5, cap 0..2; random W<=4, caps {0,1,2,3,16}. Thread exit is observed via the drop of the upstream iterator; hang = no exit signal within 1.5-10 s for microsecond work (timing-only verdicts re-run once). std mpsc semantics trusted.",
+        technique="TLA+ specs of Pipe (drop, panic+hook) and Buffered model-checked with TLC incl. negative controls; graph edge covers replayed as controlled schedules; recorded runs judged by TLC monitor/trace specs",
+        ref="6 C09"),
     "C12": dict(
         text="TLC explores the alignment machine of spec/EditDist.tla for all text pairs up to length 3 over a whitespace and two other symbols and all flag combinations and checks in every state that the row-DP of the mechanism layer is the least alignment cost (Bellman conditions), termination and the range/prefix consequences; the spec is bound to the code by replaying the TLC-enumerated input space (all pairs up to length 3/4 x flags x 4 concretisations incl. multi-byte and grapheme clusters) and seeded random pairs up to 14 characters through distance/distances/prefix_distance/operations and validating every recorded call with Trace_EditDist (exact distance, exact rational for the normalised value, script is an Align behaviour of cost D).",
         note="Bounded: MC up to length 3, replay up to length 4, random up to 14. Trusted: unicode-segmentation and char::is_whitespace for the view; float vs rational tolerance 1e-6; TLC.",
